@@ -77,7 +77,30 @@ def gen_case(rng, i, tier):
         a, b = rng.randint(1, max(1, w // 2)), rng.randint(1, max(1, w // 2))
         if a + 1 + b <= w:
             words[0], words[1] = words[0][:1] * a, (words[1][:1] * (w - a - 1)) or "x"
-    return {"w": w, "words": words, "indent": indent, "depth": depth, "chained": chained, "pad": pad}
+    # attributes on the element (also in the xml namespace: their prefix counts when the element is measured against the
+    # line - seeded C19-8)
+    attrs = rng.choice([None, None, None, "plain", "xml", "xml", "both"])
+    case = {"w": w, "words": words, "indent": indent, "depth": depth, "chained": chained, "pad": pad, "attrs": attrs}
+    if attrs and rng.random() < 0.6 and not chained and not pad:
+        # the one-line form is 1-6 columns too long for the line
+        text = esc(" ".join(words))
+        case["w"] = max(1, overhead(case) + len(text) - rng.randint(1, 6))
+    return case
+
+
+XML_NS = "http://www.w3.org/XML/1998/namespace"
+ATTRS = {None: [], "plain": [("", "n", "1")], "xml": [(XML_NS, "id", "p1")], "both": [("", "n", "1"), (XML_NS, "lang", "en")]}
+
+
+def stag(case) -> str:
+    """the start tag of the element as it is written (attributes sorted by namespace and name; the xml prefix needs no
+    declaration)"""
+    at = sorted(ATTRS[case.get("attrs")])
+    return "<p" + "".join(' %s%s="%s"' % ("xml:" if ns else "", name, v) for ns, name, v in at) + ">"
+
+
+def overhead(case) -> int:
+    return len(stag(case)) + len("</p>")
 
 
 def pieces(case):
@@ -117,7 +140,7 @@ def build(case):
     from delb import new_tag_node
 
     text = " ".join(case["words"])
-    p = new_tag_node("p")
+    p = new_tag_node("p", attributes={(ns, name): v for ns, name, v in ATTRS[case.get("attrs")]})
     p.append_children(*pieces(case))
     node = p
     for d in range(case["depth"], 0, -1):
@@ -142,7 +165,7 @@ def body_rows(case, out):
     ind, d = case["indent"], case["depth"]
     rows = out.split("\n")
     try:
-        a = rows.index(ind * d + "<p>")
+        a = rows.index(ind * d + stag(case))
     except ValueError:
         return None
     for b in range(a + 1, len(rows)):
@@ -186,7 +209,7 @@ def boundary_space(case) -> bool:
         return False
     etext = esc(" ".join(case["words"]))
     ind, d = case["indent"], case["depth"]
-    return 7 + len(etext) - 2 * len(ps) <= case["w"] - 0
+    return overhead(case) + len(etext) - 2 * len(ps) <= case["w"] - 0
 
 
 def is_known(case) -> str | None:
@@ -261,7 +284,7 @@ def check(run: Run, lean: dict) -> int:
     cases = []
     while len(cases) < n:
         c = gen_case(run.rng, len(cases), run.tier)
-        if 7 + len(esc(" ".join(c["words"]))) > c["w"]:
+        if overhead(c) + len(esc(" ".join(c["words"]))) > c["w"]:
             cases.append(c)
     # known findings are replayed as their own cases
     for f in common.known_findings("C19"):
@@ -285,7 +308,7 @@ def search(run: Run):
     cands = [m["case"] for m in run.mismatches]
     for _ in range(20000):
         c = gen_case(rng, 0, "thorough")
-        if 7 + len(esc(" ".join(c["words"]))) > c["w"]:
+        if overhead(c) + len(esc(" ".join(c["words"]))) > c["w"]:
             cands.append(c)
     for c in cands:
         if is_known(c):
@@ -302,7 +325,7 @@ def search(run: Run):
 
 def shrink(c):
     def fails(x):
-        if 7 + len(esc(" ".join(x["words"]))) <= x["w"] or not x["words"]:
+        if overhead(x) + len(esc(" ".join(x["words"]))) <= x["w"] or not x["words"]:
             return False
         try:
             return property_oracle(x, impl_output(x)) is not None
